@@ -81,6 +81,8 @@ fn main() {
     let code = match cli.prop.as_str() {
         "C07" => dispatch::<props::c07::C07>(&cli),
         "C08" => dispatch::<props::c08::C08>(&cli),
+        "C09" => dispatch::<props::c09::C09>(&cli),
+        "C10" => dispatch::<props::c10::C10>(&cli),
         "C16" => dispatch::<props::c16::C16>(&cli),
         other => {
             println!("INCONCLUSIVE {other}: no such check");
